@@ -5,7 +5,7 @@ from common import *
 HD = os.path.join(os.path.dirname(os.path.dirname(os.path.abspath(__file__))), 'harness')
 
 LEVEL_TEXT = 'bounded model checking (Kani/CBMC) of the real features.rs and of the edition gate statement of Builder::generate; all u64 minor/patch values, all editions, nightly'
-OUTSIDE = ['that each code-generation site consults its RustFeatures flag: decided for the ABI gate, the string-constant site and the C scalar type paths (raw_type / c_void) only; the other sites (offset_of!, ptr_metadata / layout_for_ptr); unsafe extern blocks are decided at their two sites are token templates not encoded',
+OUTSIDE = ['that each code-generation site consults its RustFeatures flag: decided for the ABI gate, the string-constant site and the C scalar type paths (raw_type / c_void) only; for offset_of!, ptr_metadata and layout_for_ptr only the deciding expression of each site is encoded, not the token template of either branch are token templates not encoded',
            'RustTarget::default() on the build-script path (runs rustc as a child process)']
 EXPLANATION = ('features.rs is compiled unchanged (E1 splice, harness is a child module); the solver quantifies over every '
                'minor/patch u64, edition and nightly. Oracle = stabilisation releases from the Rust release notes written in the harness.')
@@ -65,7 +65,16 @@ def build(tier, seed):
                 mod.rfind('impl CodeGenerator for Function', 0, sites[1]) > mod.rfind('impl CodeGenerator for Var', 0, sites[1])):
             raise SliceError('codegen/mod.rs: the `let safety` statements are not in Var::codegen / Function::codegen order')
         extsite = open(os.path.join(HD, 'c14_extern_site.rs')).read().replace('/*VAR_SAFETY*/', stmts[0]).replace('/*FN_SAFETY*/', stmts[1])
-        text = src + '\n' + cstr + '\n' + rawsite + '\n' + extsite + '\n' + open(os.path.join(HD, 'c14_features.rs')).read() + '\n' + \
+        cts = [mm.group(0) for mm in re.finditer(r'let compile_time = [^;]*;', mod)]
+        if len(cts) != 2:
+            raise SliceError('codegen/mod.rs: expected two `let compile_time = ..;` statements, found %d' % len(cts))
+        ml = re.search(r'let layout = if (.*?)\{\s*quote! \{\s*pub fn layout\(', mod, re.S)
+        mm_ = re.search(r'let \(from_ptr_dst, from_ptr_sized\) = if (.*?)\{\s*let flex_ref_inner', mod, re.S)
+        if not ml or not mm_:
+            raise SliceError('codegen/mod.rs: layout_for_ptr / ptr_metadata conditions of the flexarray DST impl not found')
+        flagsites = open(os.path.join(HD, 'c14_flag_sites.rs')).read().replace('/*CT_A*/', cts[0]).replace('/*CT_B*/', cts[1]) \
+            .replace('/*COND_LAYOUT*/', ml.group(1)).replace('/*COND_META*/', mm_.group(1))
+        text = src + '\n' + cstr + '\n' + rawsite + '\n' + extsite + '\n' + flagsites + '\n' + open(os.path.join(HD, 'c14_features.rs')).read() + '\n' + \
             open(os.path.join(HD, 'c14_gate.rs')).read().replace('/*GATE*/', gate) + '\n' + \
             open(os.path.join(HD, 'c14_abi_gate.rs')).read().replace('/*ABI_ENUM*/', abi_enum).replace('/*GATE_MATCH*/', gate_match)
         k = Kernel(name='features')
@@ -105,7 +114,11 @@ def build(tier, seed):
         k.harnesses.append(H('unsafe_extern_exactly_on_targets_that_have_it', path='features::extern_site::proofs::unsafe_extern_exactly_on_targets_that_have_it',
               desc='the two `let safety = ..;` statements (Var::codegen, Function::codegen; real text) x real RustFeatures: `unsafe extern` exactly from 1.82 / nightly, for const and mutable statics and functions alike',
               sample={'target': 'any', 'edition': 'any', 'static is const': 'bool'}))
-        k.encoded = [enc('codegen/mod.rs', 'Var::codegen: `let safety` statement', stmts[0]), enc('codegen/mod.rs', 'Function::codegen: `let safety` statement', stmts[1]), enc('codegen/helpers.rs', 'ast_ty::raw_type', raw_fn), enc('codegen/helpers.rs', 'ast_ty::c_void', cvoid_fn), enc('codegen/mod.rs', 'Var::codegen: VarType::String arm', arm), enc('ir/context.rs', 'BindgenContext::trait_prefix', tp), enc('ir/function.rs', 'FunctionSig::abi: feature gate match', gate_match), enc('features.rs', 'whole file (minus #[cfg(test)] mod)', rd('features.rs')), enc('lib.rs', 'Builder::generate edition gate statement', gate)]
+        k.harnesses.append(H('offset_of_and_pointer_metadata_sites_follow_the_target', path='features::flag_sites::proofs::offset_of_and_pointer_metadata_sites_follow_the_target',
+              desc='the two `let compile_time` statements (offset_of!: exactly from 1.77) and the layout_for_ptr / ptr_metadata conditions of the flexarray DST impl (exactly nightly), real text x real RustFeatures',
+              sample={'target': 'any', 'edition': 'any'}))
+        k.encoded = [enc('codegen/mod.rs', 'layout tests: `let compile_time` statements', cts[0] + cts[1]), enc('codegen/mod.rs', 'flexarray DST impl: layout_for_ptr / ptr_metadata conditions', ml.group(1) + mm_.group(1)),
+                     enc('codegen/mod.rs', 'Var::codegen: `let safety` statement', stmts[0]), enc('codegen/mod.rs', 'Function::codegen: `let safety` statement', stmts[1]), enc('codegen/helpers.rs', 'ast_ty::raw_type', raw_fn), enc('codegen/helpers.rs', 'ast_ty::c_void', cvoid_fn), enc('codegen/mod.rs', 'Var::codegen: VarType::String arm', arm), enc('ir/context.rs', 'BindgenContext::trait_prefix', tp), enc('ir/function.rs', 'FunctionSig::abi: feature gate match', gate_match), enc('features.rs', 'whole file (minus #[cfg(test)] mod)', rd('features.rs')), enc('lib.rs', 'Builder::generate edition gate statement', gate)]
         k.stubs = ['Builder/Options/BindgenError: three-field stub around the sliced gate statement']
         k.assumptions = ['gate harness: target was built by RustTarget::stable/nightly/from_str (minor >= 51), as every public constructor guarantees (checked by stable_constructor_and_constants)']
         k.bounds = ['minor, patch: all u64; editions: all; unwind 6 (feature/edition slices), 12 (release table)']
